@@ -137,7 +137,8 @@ def stepSpec (st : DSt) (ts : List String) : DSt × Option String :=
         let a : Arrival := { t := st.now, res := res, b := b }
         let asis := refCheck RuleInfo.feed st.infos st.H res st.now b
         let claim := refCheck srcDemanded st.infos st.H res st.now b
-        let st' := { st with H := if asis.isNone then st.H ++ [a] else st.H, seen := addSeen st.seen res }
+        -- at time 0 ("no time") nothing is recorded, and no claim is made
+        let st' := { st with H := if asis.isNone && st.now != 0 then st.H ++ [a] else st.H, seen := addSeen st.seen res }
         if !st.mono || st.now = 0 then (st', some "?")
         else if inRegion st.infos res then (st', some s!"?known:{knownKey}:{showD claim}")
         else (st', some (showD claim))
@@ -148,7 +149,7 @@ def stepSpec (st : DSt) (ts : List String) : DSt × Option String :=
         let ths : List Thread := bs.map fun b => { res := res, b := b }
         let (H', asis) := refRunSched RuleInfo.feed st.infos st.H st.now ths sched
         let (_, claim) := refRunSched srcDemanded st.infos st.H st.now ths sched
-        let st' := { st with H := H', seen := addSeen st.seen res }
+        let st' := { st with H := if st.now != 0 then H' else st.H, seen := addSeen st.seen res }
         if !st.mono || st.now = 0 then (st', some "?")
         else if inRegion st.infos res then (st', some s!"?known:{knownKey}:{decisionsOf (claim.map (·.st))}")
         else (st', some (decisionsOf (asis.map (·.st))))
